@@ -308,3 +308,15 @@ Theorem C16_early_noerr_variant_refuted :
   scans true false [(ADDRXLAT_ERR_INVALID, ADDRXLAT_OK)] = true /\
   ax_status_msg_ok (step_not_present (scans true false [(ADDRXLAT_ERR_INVALID, ADDRXLAT_OK)])) = false.
 Proof. exact early_set_variant_loses_message. Qed.
+
+(** after fixes/74 the upward translation is closed over the whole addrxlat
+    enumeration, foreign custom codes included (they become KDUMP_ERR_ADDRXLAT);
+    the mapping of the tree before it let -100 out as status 100 *)
+Theorem C16_status_closed_up_all : forall s, addrxlat_doc s = true ->
+  status_msg_ok (addrxlat2kdump s) = true.
+Proof. exact a2k_doc_all. Qed.
+Print Assumptions C16_status_closed_up_all.
+
+Theorem C16_foreign_custom_status_refuted :
+  addrxlat_doc (-100) = true /\ kdump_doc (fst (addrxlat2kdump_gen false (-100))) = false.
+Proof. exact a2k_unbounded_undocumented. Qed.
